@@ -60,8 +60,11 @@ func initDomains(r *eng.Run) {
 		case "a", "A", "../x", "e-acute", "Pk":
 			n.key2 = true
 		}
-		if r.Thorough() && !n.over {
-			n.key2 = true
+		if r.Thorough() {
+			switch tag {
+			case "len156", "nul", "Wz":
+				n.key2 = true
+			}
 		}
 		names = append(names, n)
 		nameByTag[tag] = n
